@@ -66,7 +66,7 @@ def base_interp(m: Model, where, modnames):
     return it
 
 
-def observe(c, universe):
+def observe(c, universe, slices=True):
     "everything the read API says about the container"
     seq = list(iter(c))
     out = dict(seq=seq, len=len(c))
@@ -77,7 +77,17 @@ def observe(c, universe):
         out['reversed'] = list(reversed(c))
     except EXC as e:
         out['reversed'] = f'raises {e}'
+    out['slices'] = {}
+    for sl in (READ_SLICES if slices else ()):
+        try:
+            out['slices'][sl] = list(c[slice(*sl)])
+        except EXC as e:
+            out['slices'][sl] = f'raises {type(e).__name__}: {e}'
     return out
+
+
+# slice reads: both directions, strides that do and do not divide the span
+READ_SLICES = ((None, None, 2), (None, None, -1), (None, None, -2), (None, None, -3), (1, None, 2), (-1, 0, -2), (0, 2, 1))
 
 
 def consistent(obs, universe):
@@ -96,6 +106,10 @@ def consistent(obs, universe):
         probs.append(f'[indexing] negative indexing yields {obs["neg"]}, expected {seq[::-1]}')
     if obs['reversed'] != seq[::-1]:
         probs.append(f'[reversed] reversed() yields {obs["reversed"]}, iteration {seq}')
+    for sl, got in obs.get('slices', {}).items():
+        if got != seq[slice(*sl)]:
+            probs.append(f'[slice-read] c[{":".join("" if x is None else str(x) for x in sl)}] yields {got}, the sequence gives {seq[slice(*sl)]}')
+            break
     return probs
 
 
@@ -214,7 +228,7 @@ def operations(n, universe, extra=()):
             yield 'pop', (i,)
         for v in U:
             yield 'setitem', (i, v)
-    for sl in (slice(0, 2), slice(1, None), slice(None, None, 2), slice(0, 0), slice(1, 3), slice(None, None, -1)):
+    for sl in (slice(0, 2), slice(1, None), slice(None, None, 2), slice(0, 0), slice(1, 3), slice(None, None, -1), slice(None, None, -2), slice(None, None, -3), slice(None, None, 3)):
         yield 'delitem', (sl,)
         k = len(range(*sl.indices(n)))
         for vals in itertools.product(U, repeat=k):
@@ -241,7 +255,7 @@ def step_check(make, universe, states, ops_for, label, has_sort=False, partial_o
             case = f'{label}({list(seq)}).{op}{tuple(args)}'
             try:
                 c = make(seq)
-                before = observe(c, universe)
+                before = observe(c, universe, slices=False)
             except EXC as e:
                 results.append((False, op, case, f'building the state raises {type(e).__name__}: {e}'))
                 continue
@@ -290,7 +304,7 @@ def step_check(make, universe, states, ops_for, label, has_sort=False, partial_o
                 d.append(fresh[0])
             if seq:
                 del d[0]
-            oc, od = observe(c, universe), observe(d, universe)
+            oc, od = observe(c, universe, slices=False), observe(d, universe, slices=False)
             want_d = (list(seq) + fresh[:1])[1 if seq else 0:]
             probs = consistent(oc, universe) + consistent(od, universe)
             if oc['seq'] != list(seq):
